@@ -126,8 +126,13 @@ def execute(script, failing, moves, mutate_check=True):
             sched.emit('storage_close')
             self.closed = True
 
-    olds = (am.Lock, am.Event, am.Thread)
-    am.Lock, am.Event, am.Thread = Lock, Event, Thread
+    class YieldingLogger(object):
+        # the cassette's log calls are call-outs as well: preemption points between its other statements
+        def _log(self, *a, **k):
+            sched.yield_point('log')
+        info = debug = warning = exception = error = _log
+    olds = (am.Lock, am.Event, am.Thread, am._logger)
+    am.Lock, am.Event, am.Thread, am._logger = Lock, Event, Thread, YieldingLogger()
     result = {'drift': 0, 'violations': [], 'log': None}
     try:
         wrapped = SpyStorage()
@@ -215,7 +220,7 @@ def execute(script, failing, moves, mutate_check=True):
         result["steps"] = sched.steps; result["trace"] = list(sched.trace)
         result['preempted'] = len(set(n for n, _l, _h in sched.trace))
     finally:
-        am.Lock, am.Event, am.Thread = olds
+        am.Lock, am.Event, am.Thread, am._logger = olds
         sched.shutdown()
     return result
 
